@@ -105,6 +105,29 @@ def binding_demo():
         bad += 1
     except core.MachineryFailure as e:
         print("field removed         -> machinery failure (as intended):", str(e).splitlines()[0][:100])
+    bad += registry_demo(chk)
+    return bad
+
+
+def registry_demo(chk):
+    """the registry model is bound: a recorded history with one outcome altered is drift; a
+    complete custom type that is not dispatched to its hook is a violation"""
+    from harness import registry
+    hist = [{"a": "extend", "name": "", "cls": "", "bases": ["Mixin", "Validator"], "flag": "true", "meth": "visit_int"},
+            {"a": "register", "name": "x", "cls": "CustomSchema", "bases": [], "flag": "", "meth": ""}]
+    ev = dict(registry.replay(hist), id=1, hist=hist)
+    bad = 0
+    v = chk.validate_events("Trace_Registry", [ev], name="selftest_reg_ok")
+    print("registry history      ->", v[1])
+    bad += v[1] != ("OK", False)
+    ev2 = dict(ev, access=dict(ev["access"], x="AttributeError"))      # as if the failed registration left no trace
+    v = chk.validate_events("Trace_Registry", [ev2], name="selftest_reg_drift")
+    print("access outcome altered->", v[1], "(drift expected)")
+    bad += not v[1][1]
+    ev3 = dict(ev, dispatch=dict(ev["dispatch"], CFull=dict(ev["dispatch"]["CFull"], Validator="NotImplementedError")))
+    v = chk.validate_events("Trace_Registry", [ev3], name="selftest_reg_fail")
+    print("hook not dispatched   ->", v[1])
+    bad += not v[1][0].startswith("FAIL")
     return bad
 
 
